@@ -71,6 +71,20 @@ def run_bin(binpath, lines, restart_on_hang=False, timeout=3000):
     return rc, answers, err
 
 
+def run_bin_par(binpath, lines, nproc=6):
+    """the model driver is a pure function of each line: run contiguous chunks concurrently, keep the order"""
+    import concurrent.futures
+    if len(lines) < 4 * nproc:
+        return run_bin(binpath, lines)
+    size = (len(lines) + nproc - 1) // nproc
+    chunks = [lines[i:i + size] for i in range(0, len(lines), size)]
+    with concurrent.futures.ThreadPoolExecutor(max_workers=nproc) as ex:
+        res = list(ex.map(lambda ch: run_bin(binpath, ch), chunks))
+    rc = max(r[0] for r in res)
+    out = [a for r in res for a in r[1]]
+    return rc, out, "".join(r[2] for r in res)
+
+
 def well_formed16(units):
     i = 0
     while i < len(units):
@@ -151,16 +165,19 @@ def gen_fmt_cases(ctx):
         for mode in range(4):
             for ver in ("10", "11"):
                 for unrep in (1, 0):
-                    # quick tier, in full: XML 1.0 Attr/CharEscapes for every encoding, XML 1.1
-                    # Attr/CharEscapes for UTF-8, UnRep_Fail + CharEscapes for the three narrow encodings; below
-                    # U+3000 (where mode, version and the single-byte tables matter): every other UnRep_CharRef combination
-                    full = thorough or (unrep == 1 and ver == "10" and mode in (2, 3)) or \
-                        (unrep == 1 and ver == "11" and enc == "utf8" and mode in (2, 3)) or \
-                        (unrep == 0 and mode == 3 and ver == "10" and enc in ("latin1", "ascii", "win1252"))
+                    # quick tier, in full (every BMP unit): XML 1.0 CharEscapes for every encoding, XML 1.0 AttrEscapes for
+                    # UTF-8 and Windows-1252, XML 1.1 CharEscapes for UTF-8, UnRep_Fail + CharEscapes for US-ASCII and
+                    # Windows-1252; every other UnRep_CharRef combination on U+0000..U+07FF and U+2000..U+21FF (where mode,
+                    # version -- C0/C1 controls, NEL, LSEP -- and the single-byte tables matter).  thorough: everything.
+                    full = thorough or (unrep == 1 and ver == "10" and mode == 3) or \
+                        (unrep == 1 and ver == "10" and mode == 2 and enc in ("utf8", "win1252")) or \
+                        (unrep == 1 and ver == "11" and enc == "utf8" and mode == 3) or \
+                        (unrep == 0 and mode == 3 and ver == "10" and enc in ("ascii", "win1252"))
                     part = unrep == 1
                     if not (full or part):
                         continue
-                    for first in range(0, 0x10000 if full else 0x3000, 512):
+                    firsts = range(0, 0x10000, 512) if full else list(range(0, 0x800, 512)) + list(range(0x2000, 0x2200, 512))
+                    for first in firsts:
                         if 0xD800 <= first < 0xE000:
                             continue
                         cases.append(("sweep", "sweep %s %d %d %s %d 512" % (enc, mode, unrep, ver, first)))
@@ -640,6 +657,7 @@ WITNESS = {
         HS("http://www.w3.org/2000/xmlns/"), HS("xmlns:q"), HS("urn:u2")),
     "F46": "doc win1252 x1s1 10 D 1 " + E("r", [], ["T " + HS("a\uFF1Cb\uFF1E")]),
     "F55": "doc utf8 x1s1 10 D 1 " + E("r", [], ["P " + HS("t") + " " + HS(" a")]),
+    "F56": "doc utf8 x1s1 10 D 2 Y " + HS("r") + " - " + HS('x"y') + " " + E("r", [], []),
     "F44": "fmt utf8 3 1 10 " + H([0x61, 0xD800]),
 }
 
@@ -714,6 +732,10 @@ def run(ctx):
                 ctx.violation("replay", dict(r, impl=part[:3000]))
         elif req.startswith("doc") or req.startswith("src"):
             a = parse_doc_answer(impl[0]) if impl else {}
+            if a.get("eq") == "0" and " Y " in req and " orig=" in impl[0]:
+                o_, g_ = impl[0].split(" orig=")[1].split(" got=")
+                if o_.replace("~", "-") == g_.replace("~", "-"):
+                    a["eq"] = "1"
             good = a.get("ser") == "ok" and a.get("reparse") == "ok" and a.get("eq") in ("1", "merged") and a.get("idem") == "1"
             if r.get("expect") == "nsfixup":
                 good = (a.get("ser") == "ok" and a.get("reparse") == "ok" and a.get("res") == "1" and
@@ -721,6 +743,9 @@ def run(ctx):
             reported = a.get("ser", "ok") != "ok"
             if not good and not (reported and r.get("expect") == "error"):
                 ctx.violation("replay", dict(r, impl=impl[0] if impl else None))
+        elif req.startswith("encsel"):
+            if not impl or not model or impl[0].split()[:3] != model[0].split()[:3]:
+                ctx.violation("replay", dict(r, impl=impl[0] if impl else None, model=model[0] if model else None))
         else:
             if not impl or not model or impl[0] != model[0]:
                 ctx.violation("replay", dict(r, impl=impl[0] if impl else None, model=model[0] if model else None))
@@ -876,7 +901,9 @@ def run(ctx):
     # ---------------------------------------------------------------------------------------------
     cases = gen_fmt_cases(ctx)
     lines = [c[1] for c in cases]
-    rc2, model, err2 = run_bin(xm, lines)
+    tf0 = time.time()
+    rc2, model, err2 = run_bin_par(xm, lines)
+    tf1 = time.time()
     if rc2 != 0 or len(model) != len(lines):
         ctx.violation("model-crash", {"what": "model driver crashed", "stderr": err2[-2000:]}, no_input=True)
         return
@@ -888,6 +915,7 @@ def run(ctx):
     lines = [lines[i] for i in keep]
     model = [model[i] for i in keep]
     rc1, impl, err1 = run_bin(xh, lines, restart_on_hang=True)
+    ctx.note("formatter level timing: setup %.1fs, model %.1fs, impl %.1fs" % (tf0 - t0, tf1 - tf0, time.time() - tf1))
     if rc1 != 0 or len(impl) != len(lines):
         ctx.violation("harness-crash", {"what": "implementation harness crashed or lost lines", "rc": rc1,
                                         "stderr": err1[-2000:], "answered": len(impl), "asked": len(lines),
@@ -1273,6 +1301,216 @@ def run(ctx):
     for k in (0, len(dcases) // 2):
         ctx.sample({"kind": "doc", "request": dcases[k][3][:400], "impl": dimpl[k][:400]})
     ctx.sample({"kind": "fmt", "request": lines[-1][:200], "impl": impl[-1][:200], "model": model[-1][:200]})
+
+    # ---------------------------------------------------------------------------------------------
+    # 2b. DocumentType nodes (ModelDt12.v / SpecDt12.v) and the encoding / version selection of write()
+    # ---------------------------------------------------------------------------------------------
+    t1c = time.time()
+    a56 = parse_doc_answer(W["F56"])
+    f56_open = a56.get("ser") == "ok" and a56.get("reparse") != "ok" and ctx.find_known("F56") is not None
+    known_or_violation("F56", a56.get("ser") == "ok" and a56.get("reparse") != "ok",
+                       "a DocumentType whose system identifier contains a double quote (legal: a parser reports it for "
+                       "<!DOCTYPE r SYSTEM 'x\"y'>) is written between double quotes: ill-formed output, no DOMError; "
+                       "identifiers that cannot be written as a literal at all (both kinds of quote, non-PubidChar in the "
+                       "public id, non-Char in the system id) are emitted too; repair proposed: "
+                       "fixes/C12-doctype-literals.patch (witness: system id x\"y)",
+                       {"request": WITNESS["F56"], "impl": W["F56"][:800], "expect": "roundtrip",
+                        "what": "DOCTYPE with a double quote in the system identifier is emitted ill-formed"})
+    PUBID = [0x20, 0x61, 0x7A, 0x41, 0x5A, 0x30, 0x39] + [ord(c) for c in "-'()+,./:=?;!*#@$_%"]
+    NOT_PUBID = [0x22, 0x3C, 0x3E, 0x26, 0x7B, 0x5C, 0x5E, 0xE9, 0x09, 0x7E, 0x5B, 0x60]
+    SYSCH = [0x61, 0x2E, 0x2F, 0x3A, 0x20, 0x26, 0x3C, 0x3E, 0x5D, 0x5B, 0x25, 0x23]
+    ndt = 400 if ctx.tier == "quick" else 6000
+    dtcases = []
+    for t in range(ndt):
+        name = [rng.choice(NAME_START)] + [rng.choice(NAME_START + NAME_MORE) for _ in range(rng.randrange(0, 4))]
+        if rng.random() < 0.06:
+            name.append(rng.choice(NAME_NONASCII))
+        pub = None
+        if rng.random() < 0.55:
+            pub = [rng.choice(PUBID) for _ in range(rng.randrange(1, 8))]
+            if rng.random() < 0.15:
+                pub.insert(rng.randrange(0, len(pub) + 1), rng.choice(NOT_PUBID))
+        sysid = None
+        if rng.random() < 0.88:
+            sysid = [rng.choice(SYSCH) for _ in range(rng.randrange(1, 8))]
+            k = rng.random()
+            if k < 0.25:
+                sysid.insert(rng.randrange(0, len(sysid) + 1), 0x22)
+            elif k < 0.45:
+                sysid.insert(rng.randrange(0, len(sysid) + 1), 0x27)
+            elif k < 0.55:
+                sysid.insert(rng.randrange(0, len(sysid) + 1), 0x22)
+                sysid.insert(rng.randrange(0, len(sysid) + 1), 0x27)
+            if rng.random() < 0.08:
+                sysid.insert(rng.randrange(0, len(sysid) + 1), rng.choice([0xE9, 0x20AC, 0x152]))
+            if rng.random() < 0.05:
+                sysid.insert(rng.randrange(0, len(sysid) + 1), rng.choice([0x1, 0xFFFE, 0x1F]))
+        enc = rng.choice(ENCS)
+        ver = "11" if rng.random() < 0.25 else "10"
+        body = "%s x1s1d1b0n0e1 %s D 2 Y %s %s %s E - %s 0 0" % (enc, ver, H(name), H(pub) if pub else "-",
+                                                                H(sysid) if sysid else "-", H(name))
+        dtcases.append((name, pub or [], sysid or [], enc, ver, body))
+    dtlines = ["doc " + c[5] for c in dtcases]
+    rcd, dtimpl, errd = run_bin(xh, dtlines, restart_on_hang=True)
+    if rcd != 0 or len(dtimpl) != len(dtlines):
+        ctx.violation("harness-crash", {"what": "implementation harness crashed or lost lines (doctype)", "rc": rcd,
+                                        "stderr": errd[-2000:], "answered": len(dtimpl), "asked": len(dtlines),
+                                        "request": dtlines[len(dtimpl)][:3000] if len(dtimpl) < len(dtlines) else None})
+        return
+    _, dtmodel, _ = run_bin(xm, [("docdq0 " if f56_open else "doc ") + c[5] for c in dtcases])
+    _, pubtab, _ = run_bin(xm, ["pubid %d" % c for c in range(0, 256)])
+    is_pubid = lambda c: c < 256 and pubtab[c] == "ok 1"
+    dtstats = {"cases": len(dtlines), "expressible": 0, "roundtrip": 0, "refused": 0, "model-equal": 0, "spec-oracle-same": 0,
+               "known-class": 0, "single-quoted": 0}
+    dt_spec_req, dt_spec_own = [], []
+    dt_known = 0
+    for k, ((name, pub, sysid, enc, ver, body), ans) in enumerate(zip(dtcases, dtimpl)):
+        ctx.count()
+        ctx.distinct(dtlines[k])
+        if ans.startswith("build-exc"):
+            continue
+        a = parse_doc_answer(ans)
+        v11 = ver == "11"
+        reasons = []
+        if any(not is_pubid(c) for c in pub):
+            reasons.append("pubid-char")
+        if 0x22 in sysid and 0x27 in sysid:
+            reasons.append("both-quotes")
+        if not valid_units(sysid, v11):
+            reasons.append("sysid-not-char")
+        if pub and not sysid:
+            reasons.append("public-without-system")
+        if any(can(enc, c) is False for c in name + pub + sysid):
+            reasons.append("unrepresentable")
+        f56_class = f56_open and (0x22 in sysid or "pubid-char" in reasons or "sysid-not-char" in reasons)
+        m = dtmodel[k] if k < len(dtmodel) else "missing"
+        magree = (m.startswith("ok ") and a.get("ser") == "ok" and a.get("bytes") == m[3:]) or \
+                 (m.startswith("err unrepresentable") and a.get("ser") == "fail") or \
+                 (m.startswith("err invalid-char") and a.get("ser", "").startswith("exc:DOMLSException"))
+        if magree:
+            dtstats["model-equal"] += 1
+        eq = a.get("eq")
+        if eq == "0" and " orig=" in ans and " got=" in ans:
+            # a DocumentType built through the API has a null publicId / systemId where the parser reports an empty string
+            o_, g_ = ans.split(" orig=")[1].split(" got=")
+            if o_.replace("~", "-") == g_.replace("~", "-"):
+                eq = "1"
+        good_rt = a.get("ser") == "ok" and a.get("reparse") == "ok" and eq == "1" and a.get("idem") == "1"
+        bad = None
+        if not reasons:
+            dtstats["expressible"] += 1
+            if good_rt:
+                dtstats["roundtrip"] += 1
+                if 0x22 in sysid:
+                    dtstats["single-quoted"] += 1
+                units = decode_bytes(enc, unhex(a.get("bytes", "-"), 2))
+                if units is not None and 0x3E in units:
+                    dt_spec_req.append("dtspec " + H(units[units.index(0x3E) + 1:]))
+                    dt_spec_own.append(k)
+            elif f56_class and a.get("ser") == "ok":
+                dtstats["known-class"] += 1
+                dt_known += 1
+            else:
+                bad = ("roundtrip", "a DocumentType that XML can express does not survive serialise/re-parse/serialise")
+        else:
+            if a.get("ser") != "ok":
+                dtstats["refused"] += 1
+            elif f56_class:
+                dtstats["known-class"] += 1
+                dt_known += 1
+            elif good_rt:
+                pass
+            else:
+                bad = ("error", "a DocumentType that cannot be written as well-formed XML was emitted without an error")
+        if bad:
+            violation("divergence" if not magree else "spec",
+                      {"request": dtlines[k], "impl": ans[:2000], "model": m[:800], "reasons": reasons, "expect": bad[0],
+                       "what": bad[1]})
+        elif not magree and not viol[0]:
+            ctx.violation("correspondence", {"request": dtlines[k], "impl": ans[:1500], "model": m[:800],
+                                             "what": "doctype model (ModelDt12.ser_doctype) and DOMLSSerializer differ; the "
+                                                     "document-level oracle is satisfied on this input"}, no_input=True)
+            viol[0] += 1
+    _, dt_spec_out, _ = run_bin(xm, dt_spec_req)
+    for k, o in zip(dt_spec_own, dt_spec_out):
+        name, pub, sysid = dtcases[k][0], dtcases[k][1], dtcases[k][2]
+        want = "some %s %s %s - %s" % (H(name), H(pub) if pub else "-", H(sysid) if sysid else "-", H([0x3C] + name + [0x2F, 0x3E]))
+        if o == want:
+            dtstats["spec-oracle-same"] += 1
+        else:
+            violation("spec", {"request": dtlines[k], "impl": dtimpl[k][:2000], "spec": o[:800], "want": want, "expect": "roundtrip",
+                               "what": "SpecDt12.parse_doctype of the declaration the library wrote is not the DocumentType "
+                                       "(statement of T12_doctype_roundtrip on the implementation's output)"})
+    if dt_known:
+        ctx.known_hits = [h + (" ; %d generated DocumentTypes of this class" % dt_known if h.startswith("F56:") else "")
+                          for h in ctx.known_hits]
+    # documents parsed from source: DOCTYPE with single-quoted literals and an internal subset
+    srcs = []
+    for sysid, sub in (('x"y', ""), ("a'b", '<!ENTITY e "v">'), ('p"q', "<!ELEMENT r ANY><!ATTLIST r k CDATA 'd\"q'>"),
+                       ("plain.dtd", "<!-- c --><!ENTITY % pe 'x'>")):
+        q = "'" if '"' in sysid else '"'
+        for pub in (None, "-//X//Y 'z'//EN"):
+            ext = ("PUBLIC \"%s\" %s%s%s" % (pub, q, sysid, q)) if pub else ("SYSTEM %s%s%s" % (q, sysid, q))
+            txt = "<!DOCTYPE r %s%s><r>t</r>" % (ext, (" [%s]" % sub) if sub else "")
+            srcs.append((sysid, "src utf8 x1s1d0b0n0e1 " + "".join("%02X" % b for b in txt.encode("ascii")), sub))
+    _, simpl_, _ = run_bin(xh, [q_[1] for q_ in srcs], restart_on_hang=True)
+    dtstats["parsed-sources"] = len(srcs)
+    f57_seen = False
+    for (sysid, rq, sub), ans in zip(srcs, simpl_):
+        ctx.count()
+        a = parse_doc_answer(ans)
+        if doc_good(a):
+            dtstats["parsed-sources-ok"] = dtstats.get("parsed-sources-ok", 0) + 1
+        elif f56_open and '"' in sysid and a.get("ser") == "ok":
+            dtstats["known-class"] += 1
+        elif ("<!--" in sub or "<!ENTITY %" in sub) and ctx.find_known("F57") and a.get("ser") == "ok" and a.get("reparse") == "ok":
+            dtstats["known-class"] += 1
+            if not f57_seen:
+                f57_seen = True
+                ctx.known_finding("F57", "the internal subset a parsed DocumentType reports (getInternalSubset, rebuilt by "
+                                  "AbstractDOMParser) is not the subset that was read: a comment <!-- c --> gains a blank on "
+                                  "each side on every parse (doctypeComment) and a parameter-entity declaration <!ENTITY % pe "
+                                  "'x'> is recorded without the '%' (entityDecl); the serializer re-emits that text, so the "
+                                  "re-parsed document is not isEqualNode and the second serialisation differs")
+        else:
+            violation("spec", {"request": rq, "impl": ans[:2000], "expect": "roundtrip",
+                               "what": "a parsed document with a DOCTYPE does not survive serialise/re-parse/serialise"})
+    # encoding / version selection: LSOutput.encoding, Document.inputEncoding, Document.xmlEncoding, UTF-8; writeToString
+    NAMES = ["-", "UTF-8", "ISO-8859-1", "US-ASCII", "UTF-16", "windows-1252", "utf-8"]
+    ereqs = []
+    for o_ in NAMES:
+        for i_ in NAMES[:5]:
+            for x_ in NAMES[:5]:
+                for v_ in ("-", "1.0", "1.1"):
+                    for ts in ("0", "1"):
+                        if ts == "1" and rng.random() < 0.7:
+                            continue
+                        ereqs.append("encsel %s %s %s %s %s" % tuple([HS(n) if n != "-" else "-" for n in (o_, i_, x_, v_)] + [ts]))
+    _, eimpl, _ = run_bin(xh, ereqs, restart_on_hang=True)
+    _, emodel, _ = run_bin(xm, ereqs)
+    esel = {"requests": len(ereqs), "agree": 0}
+    for rq, i_, m_ in zip(ereqs, eimpl, emodel):
+        ctx.count()
+        ctx.distinct(rq)
+        # the model answers "ok <version> <encoding> <10|11>"; the harness "ok <version> <encoding> <bytes>"
+        if i_.split()[:3] == m_.split()[:3] and i_.startswith("ok "):
+            esel["agree"] += 1
+        else:
+            # Spec: the order of DOM L3 LS (first non-empty of LSOutput.encoding, inputEncoding, xmlEncoding, else UTF-8)
+            f = rq.split()
+            want = next((n for n in f[1:4] if n != "-"), HS("UTF-8")) if f[5] == "0" else HS("UTF-16")
+            got = i_.split()[2] if i_.startswith("ok ") and len(i_.split()) > 2 else None
+            if got != want:
+                violation("divergence", {"request": rq, "impl": i_[:600], "model": m_, "want_encoding": want, "expect": "encsel",
+                                         "what": "write()/writeToString did not use the encoding DOM L3 LS prescribes"})
+            elif not viol[0]:
+                ctx.violation("correspondence", {"request": rq, "impl": i_[:600], "model": m_,
+                                                 "what": "encoding/version selection differs from the model"}, no_input=True)
+                viol[0] += 1
+    ctx.coverage["doctype"] = dtstats
+    ctx.coverage["encoding_selection"] = esel
+    ctx.coverage["traces_validated_against_impl"] += len(dtlines) + len(srcs) + len(ereqs)
+    ctx.note("doctype: %s; encoding selection: %s, %.1fs" % (dtstats, esel, time.time() - t1c))
 
     # ---------------------------------------------------------------------------------------------
     # 3. namespace fix-up on API-built trees: (a) DOMLSSerializer's own fix-up, (b) normalizeDocument() first
